@@ -23,7 +23,9 @@ PROPS = {
                 "six intervals, --last, account/commodity filters, universe files with nested classes, -m mappings with level 0-3 and suffix, -a), external (constant prices, no annotations: "
                 "every return must be 0), noflow (all transactions on the first day, then only price changes: return = end/start-1 from the balance totals), malformed (lifecycle mutations, "
                 "dropped prices, no -v, inverted windows, duplicate universe entries), mixed (price changes and @performance annotations confined to one window of the span, several periods: single "
-                "periods satisfy the hypotheses of the 0%-clause, the journal does not). Per-period monitors: zero_period_when_calm (driver op `calm` = Performance.calmPeriods), ratio_without_flows. "
+                "periods satisfy the hypotheses of the 0%-clause, the journal does not), universe (generated universe files of odd but legal shape - lines and files beyond 4 KiB / 64 KiB / 1 MiB, flow/block/wrapped lists, "
+                "BOM, CRLF, tabs, comments, anchors, deep and many classes - and files that must be rejected as a whole; groups are checked against the classes the generator wrote) and universe-reader "
+                "(performance.LoadUniverse in-process over readers that deliver pieces or fail part-way: loaded = the whole file, or an error). Per-period monitors: zero_period_when_calm (driver op `calm` = Performance.calmPeriods), ratio_without_flows. "
                 "class = (stream, outcomes, flag signature, size bucket).",
         "assumptions": ["exact rational arithmetic in place of float64 (outputs compared after rounding to the printed digits with 1-2 units tolerance)",
                         "C20_zero_period_when_only_external_flows: no --commodity, V0+inflow != 0 on the days of the period (both are points where the clause fails on the code: known findings); C20_ratio_period_without_flows: non-zero start value on every day of the period",
@@ -31,7 +33,7 @@ PROPS = {
         "trusted": ["known findings: returns-commodity-filter-counts-filtered-flows, returns-meaningless-when-start-value-plus-inflow-vanishes, returns-meaningless-when-start-value-is-rounding-residue"],
     },
     "C16": {
-        "lean": ["Knut.Properties.C16", "Knut.FactsAgree.TransProcess", "Knut.FactsAgree.TransJPrinter"],
+        "lean": ["Knut.Properties.C16", "Knut.FactsAgree.TransProcess", "Knut.FactsAgree.TransJPrinter", "Knut.FactsAgree.TransJPrinter2"],
         "level": "proof",
         "claim": "PARTIAL proof (one clause is false on the code and recorded as known finding) + byte-exact correspondence. Lean theorems over the model of `knut transcode -v V` "
                  "(Sort, ComputePrices, check, Valuate with daily value adjustments, then beancount.Transcode as an entry list and its text), for ALL journals and valuation commodities on which "
@@ -57,7 +59,7 @@ PROPS = {
         "trusted": ["known finding valuation-account-not-opened: generated valuation accounts are never opened (C16_valuation_account_not_opened)"],
     },
     "C06": {
-        "lean": ["Knut.Properties.C06", "Knut.Properties.C06Report", "Knut.Properties.C05Valued"],
+        "lean": ["Knut.Properties.C06", "Knut.Properties.C06Report", "Knut.Properties.C05Valued", "Knut.FactsAgree.C06", "Knut.FactsAgree.C06Conc"],
         "level": "proof",
         "claim": "PARTIAL proof + repeated-run check. In the model every map iteration / arrival order is the order of a list; proved for all inputs: C06_sort_oracle_irrelevant and "
                  "C06_sorted_fold_oracle_irrelevant (sorting with a total antisymmetric comparator removes the enumeration order: the dict.SortedKeys / compare.Sort sites), C06_sum_oracle_irrelevant "
@@ -66,7 +68,10 @@ PROPS = {
                  "whose accounts start with an account type — without that proviso two non-type top-level names tie in the level-1 comparator, kernel-checked witness table_perm_needs_wf), rows_order_perm, "
                  "eraseDups_perm. Not provable in this model: absence of further order leaks in the Go code, float "
                  "summation order in portfolio/infer. Decided on every run: each of balance, print, check --write, transcode, portfolio weights, infer and import revolut2 is run 8 (thorough: 30) "
-                 "times on tie-rich inputs with different schedule-perturbation seeds and GOMAXPROCS 1/2/16 (Go randomises map iteration per run); stdout bytes and exit status must be identical.",
+                 "times on tie-rich inputs with different schedule-perturbation seeds and GOMAXPROCS 1/2/16 (Go randomises map iteration per run); stdout bytes and exit status must be identical. "
+                 "Census (FactsAgree/C06.lean, C06Conc.lean): every range over a map (or over a slice handed out in map order), every sort with its comparator, every float accumulation, clock/environment use, "
+                 "goroutine, channel operation and locking sequence of /repo is re-extracted on every run, classified mechanically (translated with the order as a parameter / sorted before use / commutative accumulation / other) "
+                 "and must equal the reviewed expectation: a new, changed or vanished site is a broken obligation naming the file and function; the class-d sites are a documented allowlist (verdict, reason, covering theorem).",
         "note": "Trusted: Lean kernel; axioms propext, Classical.choice, Quot.sound. Go map order and goroutine schedules can be sampled, not enumerated. A genuine defect found by this check "
                 "(portfolio weights rows with equal weight in map order) was repaired in /repo (fix: commit 795b0e8). Findings on the unchanged code (known_findings.jsonl), recognised by their exact shape only: "
                 "returns-prints-periods-before-a-late-failure (portfolio returns prints a schedule-dependent prefix of its report when the journal is rejected on a late day; exit status stable) and "
@@ -129,7 +134,7 @@ PROPS = {
         "assumptions": ["no --commodity filter in this check's flag vectors (the filtered sum of positions is not assembled into a theorem)"],
     },
     "C09": {
-        "lean": ["Knut.Properties.C09", "Knut.Properties.C09Decimal", "Knut.Properties.C09Text", "Knut.Properties.C09Journal", "Knut.Properties.C09Cmd", "Knut.FactsAgree.TransTransaction", "Knut.FactsAgree.TransJPrinter"],
+        "lean": ["Knut.Properties.C09", "Knut.Properties.C09Decimal", "Knut.Properties.C09Text", "Knut.Properties.C09Journal", "Knut.Properties.C09Cmd", "Knut.FactsAgree.TransTransaction", "Knut.FactsAgree.TransJPrinter", "Knut.FactsAgree.TransJPrinter2"],
         "level": "proof",
         "claim": "Proof (all three clauses, for every printable journal, on the model of the commands for a journal that is one file) + full correspondence. Properties/C09Journal.lean: C09_print_accepted (the printed text loads and the checker gives the reloaded journal the verdict of the original), C09_print_fixpoint / C09_print_rejected (knut print on the printed text of an accepted printable journal writes that text; a rejected one stays rejected), C09_print_idempotent(_bytes) (print is idempotent on its own output), C09_reports_equal (knut balance under ANY flag vector, valued or not, no restriction on price directives, gives the same bytes or fails alike on the directives loaded from the printed text and on the directives the journal was built from), C09_verdict_equal. Printable (PrintableDir / PrintableJournal, decidable) = what the journal syntax can carry: dates 0000..9999, names of Unicode letters/digits, decimal amounts, assertions with at least one balance, descriptions without a double quote, transactions as transaction.Create builds them. UNCONDITIONAL for texts: C09_loaded_printable (every directive the loader returns from ANY byte string is PrintableDir: the parser's soundness gives field tokens of the right lexical classes, time.Parse / NewFromString / the registry / transaction.Create incl. @accrue expansion give the rest; Proofs/PrintSound.lean), hence C09_print_idempotent: for EVERY input text, if knut print succeeds on it then knut print on its output writes the same bytes; C09_file_reports_equal: check verdict and every balance report (any flags) of the printed file equal those of the input file. ONE ELABORATION MODEL (Properties/C09Cmd.lean): C09_elab_agrees - on every file the parser accepts, Commands.elabFile (inside Cmd.run, the command model C14 compares with the binary) returns the directives FromSyntax.loadText returns, errs iff it errs, panics iff it panics (a validly encoded token is the token of a character; the two models of time.Parse and NewFromString agree on every string; same order of handling). The models differed on one input class (transaction.Create panic followed by a later directive the elaboration rejects: loadText said error, Cmd.run and the real binary panic); loadText was repaired. C09_cmd_print_is_printFile (Cmd.run .print on a file without include directives = printFile of its bytes), and for EVERY file system and include tree on the input side: C09_cmd_loaded_printable, C09_cmd_print_idempotent (knut print succeeds with out => knut print on a file holding out writes out), C09_cmd_reports_equal (knut balance, every flag vector, same outcome on that file as on the input), C09_cmd_verdict_equal (knut check). Open: check --write's printed assertions are not compared. Proved (all bookings, all amounts): C09_booking_normal_form (rebuilding the booking that print writes from the debit-side posting yields "
                  "the identical posting pair), C09_printed_quantity_nonneg, C09_reprint_same_line, C09_targets_line. Properties/C09Decimal.lean: C09_dec_scaled_roundtrip, C09_dec_string_roundtrip (parseDec (showDec r) = r for every decimal rational), C09_dec_string_shortest, "
@@ -202,7 +207,9 @@ PROPS = {
                 "error message texts are not modelled, only verdict and named directive.  @accrue-annotated transactions are generated too and expanded on the model side by Model/Accrual (C10).",
         "rule": "journals generated by an account-lifecycle automaton (2-6 accounts of all five types incl. nested ones, 1-3+ commodities incl. Unicode names, 1-5 days, same-day "
                 "open/use/assert/close, multi-booking transactions, zero and negative amounts, multi-balance assertions) with at most one mutation out of: drop-open, duplicate-open, "
-                "wrong-assertion, random-close, late-booking, zero-assertion, non-AL-assertion, reopen-assert, zero-booking-unopened. class = (verdict, mutation, size bucket). "
+                "wrong-assertion, random-close, late-booking, zero-assertion, non-AL-assertion, reopen-assert, zero-booking-unopened. class = (verdict, mutation, size bucket, account shapes). "
+                "In two of five cases of every stream some or all accounts are renamed, injectively and within their account type, to minimal and odd valid names (the bare root account, "
+                "digit-only / type-word / non-ASCII / one-letter / very long segments, 6-66 segments, parent, child, string-prefix sibling or leaf of another account). "
                 "Stream disorder: sparse account timelines (one open/booking/assertion/close/price per step, mostly on a date of its own), re-open journals and automaton journals whose FILE order is "
                 "rearranged (displaced or nudged directives, swapped/displaced/permuted/reversed days, shuffled tail, full shuffle, grouped by kind, concatenated chronological files); the specification "
                 "sorts the generated directive list itself and is compared with check.Check and `knut check`.",
@@ -230,7 +237,7 @@ PROPS = {
                 "generated journals); raw (random bytes over an alphabet with invalid UTF-8, surrogates, overlong forms, NUL, CR, U+FFFD, keywords); long (one very long "
                 "token, 1e5 bytes quick / 1e6 thorough). Every case: model vs implementation (tree dump or error ranges + rendered message), Go-side check that every "
                 "range carries the input text and Extract() is the slice, Lean treeOK/errOK on the real result. A class = outcome x (directive-kind set + layout tags) "
-                "resp. (error depth, innermost message shape). Disagreements trigger a directed search (all prefixes and one-position edits of the disagreeing input).",
+                "resp. (error depth, innermost message shape). Disagreements trigger a directed search (all prefixes and one-position edits of the disagreeing input). loader (c07loader.go; worker process with KNUT_VERIF_SEED, varying GOMAXPROCS, consumer speed and caller-side cancellation): generated include trees on disk - all valid, or with a missing include / directory / syntax error early or late / invalid UTF-8 / include cycle in a member, files from a few bytes to MB - through syntax.ParseFileRecursively and syntax.ParseFile, several loads per tree; on EVERY delivered tree: it is the tree of a file of the load with that file's content as text and file range [0,len], text identity of all ranges, Lean treeOK, model tree (files up to 150 KB); on every returned syntax error: text identity, errOK, and it is the error of that file's own text (none for a text that parses); panic/hang = C07_total.",
         "assumptions": ["utf8.DecodeRuneInString behaves as Utf8.decodeRune (compared on every run)",
                         "unicode.IsLetter/IsDigit are the regenerated range tables (Go toolchain of the run)",
                         "fmt's %c/%q/%d and strings.Builder behave as the model's string building (compared through the rendered error text)"],
@@ -391,7 +398,7 @@ PROPS = {
         "timeout": {"quick": 900, "thorough": 3000},
     },
     "C19": {
-        "lean": ["Knut.Properties.C19", "Knut.Properties.C19Registry", "Knut.FactsAgree.C19", "Knut.FactsAgree.TransJournal"],
+        "lean": ["Knut.Properties.C19", "Knut.Properties.C19Registry", "Knut.FactsAgree.C19", "Knut.FactsAgree.TransJournal", "Knut.FactsAgree.C06Conc"],
         "level": "proof",
         "race": True,
         "claim": "Lean theorems over a transition-system model of cpr.Seq (any number of stages, items, stage functions with private state; a schedule is any "
@@ -473,7 +480,7 @@ PROPS = {
         "timeout": {"quick": 900, "thorough": 3000},
     },
     "C13": {
-        "lean": ["Knut.Properties.C13", "Knut.Properties.C13Text", "Knut.FactsAgree.TransJPrinter"],
+        "lean": ["Knut.Properties.C13", "Knut.Properties.C13Text", "Knut.FactsAgree.TransJPrinter", "Knut.FactsAgree.TransJPrinter2"],
         "level": "proof",
         "claim": "Proof (row level and text level, all eleven importers; for revolut2 / revolut / interactivebrokers, whose output carries the statement's balance assertions, acceptance is proved equivalent to the statement's balance column being consistent with its amounts) + full correspondence. Lean row models (Model/Import/*.lean) from the records as encoding/csv / encoding/json decoded them "
                  "to the directives added to the journal.Builder (explicit error / panic outcomes), printed by the model of journal.Print (C09); a specification-side reader per format "
